@@ -17,7 +17,7 @@ from kawin.precipitation.PopulationBalance import PopulationBalanceModel as PBM
 from kawin.precipitation.PrecipitationParameters import PrecipitateParameters, PrecipitationData
 from kawin.precipitation import NucleationRate as nucfuncs
 from kawin.precipitation.parameters.ShapeFactors import NeedleDescription, PlateDescription, ShapeFactor, ShapeDescriptionBase
-from kawin.precipitation.parameters.Nucleation import BulkDescription
+from kawin.precipitation.parameters.Nucleation import BulkDescription, GrainBoundaryDescription, NucleationBarrierParameters
 from kawin.thermo.MultiTherm import MulticomponentThermodynamics, CurvatureOutput, _growthRateOutputFromCurvature
 from kawin.thermo.BinTherm import BinaryThermodynamics
 from kawin.thermo.Thermodynamics import GeneralThermodynamics
@@ -188,6 +188,54 @@ def rcrit(ctx, shape="sphere", strain=True, arfun=False):
                   ctx.implies(unclamped, ctx.eq(gt, dgs[i])))
 
 
+# ----------------------------------------------------------------------------- C12.rcrit_gb
+def rcrit_gb(ctx, strain=True, history="gamma"):
+    """grain-boundary nucleation site (spherical-cap nucleus; the Clemm-Fisher factors a, b, c are polynomials in
+    k = gbEnergy / 2 gamma and 2 (b gamma - a gbEnergy) / 3 c = 2 gamma): the critical radius nucleationBarrier reports
+    through NucleationBarrierParameters.Rcrit is 2 gamma / dG -- the radius at which the driving force equals the
+    Gibbs-Thomson energy of computeGibbsThomsonContribution -- also after the interfacial energy (or the grain-boundary
+    energy) was changed on the same object, whose site factors had already been evaluated for the old value"""
+    m, pp, s = mk_model(ctx, 2, ["A"], "sphere", strain)
+    gam = s["gamma"]
+    ggb = ctx.real("gbEnergy", (0.05, 0.35)); ctx.assume(ggb >= 0); ctx.assume(ggb < 2 * gam)
+    pp.nucleation.gbEnergy = ggb
+    pp.nucleation.setNucleationType("grain boundaries")
+    if history == "gamma":
+        g0 = ctx.real("gammaBefore", (0.2, 1.5)); ctx.assume(g0 > 0); ctx.assume(ggb < 2 * g0)
+        pp.gamma = g0
+    elif history == "gbEnergy":
+        e0 = ctx.real("gbEnergyBefore", (0.05, 0.35)); ctx.assume(e0 >= 0); ctx.assume(e0 < 2 * gam)
+        pp.nucleation.gbEnergy = e0
+    if history != "none":
+        v0 = ctx.real("volDGbefore", (0.2, 3.0)); ctx.assume(v0 > 0)
+        nucfuncs.nucleationBarrier(v0, pp, 1)          # an earlier evaluation on this object (site factors now cached)
+        if history == "gamma":
+            pp.gamma = gam                               # PrecipitateParameters.gamma -> validate() -> NucleationBarrierParameters.gamma
+        else:
+            pp.nucleation.gbEnergy = ggb
+    x = ctx.real("x", (0.02, 0.3)); T = ctx.real("T", (500.0, 900.0))
+    dg = ctx.real("chemDG", (0.5, 3.0))
+    th = object.__new__(BinaryThermodynamics)
+    th.phases = ["ALPHA", "P1"]; th.elements = ["M", "A", "VA"]; th.numElements = 2
+    th._drivingForce = lambda xi, Ti, precPhase, removeCache, lpsc: (dg, ctx.uf("betaComp", Ti, rng=(0.5, 0.9)))
+    ar = pp.shapeFactor.aspectRatio(0.0)
+    chem, vol, bcomp = nucfuncs.volumetricDrivingForce(th, x, T, pp, ar)
+    vol = vol * 1.0
+    ctx.assume(vol > 0, "precipitate can nucleate")
+    R, G = nucfuncs.nucleationBarrier(vol, pp, ar)
+    R = R * 1.0
+    ctx.observe("Rcrit", R); ctx.observe("volDG", vol)
+    prop = 2 * gam / vol
+    ctx.prove("grain-boundary site: Rcrit = max(2 gamma / dG, Rmin) with the current interfacial energy",
+              ctx.eq(R, ctx.ite(prop >= pp.Rmin, prop, pp.Rmin * 1.0)))
+    unclamped = prop >= pp.Rmin
+    Rq = ctx.ite(unclamped, R, 1.0 + 0.0 * R)
+    gt = pp.computeGibbsThomsonContribution(Rq)
+    ctx.observe("gt", gt)
+    ctx.prove("grain-boundary site: Gibbs-Thomson energy at the (unclamped) critical radius equals the chemical driving force",
+              ctx.implies(unclamped, ctx.eq(gt, dg)))
+
+
 # ----------------------------------------------------------------------------- C12.multi_sign
 def multi_sign(ctx, nb=2, shape="sphere", strain=False, ne=2, nph=1):
     """multicomponent: growth rate of every class boundary from the real _singleGrowthMulti (real
@@ -344,6 +392,15 @@ HARNESSES = [
                               {"shape": "needle", "strain": False, "arfun": True}, {"shape": "plate", "strain": True, "arfun": True}],
                     "thorough": [{"shape": sh, "strain": st} for sh in ("sphere", "needle", "plate") for st in (False, True)] +
                                 [{"shape": sh, "strain": st, "arfun": True} for sh in ("needle", "plate") for st in (False, True)]}),
+    Harness("C12.rcrit_gb", rcrit_gb, functions=_F_COMMON + [NucleationBarrierParameters.Rcrit, NucleationBarrierParameters.setNucleationType,
+                                                              GrainBoundaryDescription._areaFactor, GrainBoundaryDescription._volumeFactor, GrainBoundaryDescription._gbRemoval,
+                                                              PrecipitateParameters.validate],
+            assumptions=_A + ["grain-boundary site, spherical shape factor, 0 <= gbEnergy < 2 gamma (k < 1) for every interfacial energy used; volumetric driving force > 0",
+                              "pi is an opaque symbolic constant (3.1415926 < pi < 3.1415927), so that 2*pi/3*3 = 2*pi holds exactly as in the derivation"],
+            stubs=["_drivingForce (per-point pycalphad routine): arbitrary value"], opts={"symbolic_pi": True, "ob_timeout": 40.0},
+            bounds={"history": "site factors evaluated once before the interfacial / grain-boundary energy was changed on the same object (or no history)"},
+            params={"quick": [{"strain": True, "history": "gamma"}, {"strain": False, "history": "gbEnergy"}, {"strain": False, "history": "none"}],
+                    "thorough": [{"strain": st, "history": h} for st in (False, True) for h in ("gamma", "gbEnergy", "none")]}),
     Harness("C12.multi_sign", multi_sign, functions=_F_COMMON + _F_MULTI, assumptions=_A + ["volumetric driving force > 0; no elastic strain energy"],
             stubs=_S_MULTI, bounds={"classes": "nb", "solutes": "ne", "phases": "nph (the last one analysed)"},
             params={"quick": [{"nb": 2, "shape": "sphere", "ne": 2}, {"nb": 2, "shape": "needle", "ne": 2, "nph": 2}, {"nb": 3, "shape": "plate", "ne": 3}],
